@@ -23,7 +23,7 @@ import (
 // ---- read-your-writes through the follower API ------------------------------------------------------
 
 type WOp struct {
-	Kind string `json:"kind"` // put | delrange | txn | txn-empty-branch
+	Kind string `json:"kind"` // put | delrange | txn | txn-empty-branch | restart-follower
 	K    []byte `json:"k"`
 	V    []byte `json:"v,omitempty"`
 	End  []byte `json:"end,omitempty"`
@@ -41,7 +41,10 @@ func genRYW(t *rapid.T) RYWCase {
 	n := rapid.IntRange(1, 8).Draw(t, "n")
 	for i := 0; i < n; i++ {
 		op := WOp{K: rapid.SampledFrom(rywKeys).Draw(t, "k"), V: []byte(fmt.Sprintf("v%d", i))}
-		switch rapid.IntRange(0, 5).Draw(t, "kind") {
+		switch rapid.IntRange(0, 6).Draw(t, "kind") {
+		case 6:
+			// the follower node restarts (its tables are re-opened) between two writes
+			op.Kind = "restart-follower"
 		case 0, 1, 2:
 			op.Kind = "put"
 		case 3:
@@ -90,26 +93,49 @@ func runRYW(c RYWCase, o *vt.Obs) *vt.Failure {
 		return nil
 	}
 	// the replication worker polls at the generated period (production: the worker's own ticker)
-	stop := make(chan struct{})
+	var stop chan struct{}
 	var wg sync.WaitGroup
-	wg.Add(1)
-	go func() {
-		defer wg.Done()
-		w := p.Worker(name, 2)
-		for {
-			select {
-			case <-stop:
-				return
-			case <-time.After(time.Duration(c.PollMs) * time.Millisecond):
-				_, _ = w.Poll()
+	startPoller := func() {
+		stop = make(chan struct{})
+		wg.Add(1)
+		go func(stop chan struct{}) {
+			defer wg.Done()
+			w := p.Worker(name, 2)
+			for {
+				select {
+				case <-stop:
+					return
+				case <-time.After(time.Duration(c.PollMs) * time.Millisecond):
+					_, _ = w.Poll()
+				}
 			}
-		}
-	}()
-	defer func() { close(stop); wg.Wait() }()
+		}(stop)
+	}
+	stopPoller := func() { close(stop); wg.Wait() }
+	startPoller()
+	defer func() { stopPoller() }()
 
 	m := model.New()
 	emptyBranch := 0
+	restarts := 0
 	for i, op := range c.Ops {
+		if op.Kind == "restart-follower" {
+			stopPoller()
+			rerr := p.RestartFollower()
+			if rerr == nil {
+				rerr = p.F.WaitTablePatient(name, 20*time.Second)
+			}
+			if rerr == nil {
+				api, rerr = p.FollowerAPI()
+			}
+			startPoller()
+			if rerr != nil {
+				vt.Inconclusive("C11 follower restart: " + rerr.Error())
+				return nil
+			}
+			restarts++
+			continue
+		}
 		ctx, cancel := context.WithTimeout(context.Background(), 15*time.Second)
 		var err error
 		var rev uint64
@@ -177,6 +203,9 @@ func runRYW(c RYWCase, o *vt.Obs) *vt.Failure {
 	}
 	if emptyBranch > 0 {
 		o.Label("txn-with-empty-executed-branch")
+	}
+	if restarts > 0 {
+		o.Label("follower-restart-between-forwarded-writes")
 	}
 	o.NonTrivial = emptyBranch > 0 || len(c.Ops) >= 3
 	o.Describe = func() string { return fmt.Sprintf("%+v", c) }
